@@ -7,7 +7,9 @@
 EXTENDS YParser, YRenderBlock, TLC, Json
 CONSTANTS NL
 Kinds == { Ln(<<"a", "b">>, "text", 0), Ln(<<"#", " ", "c">>, "text", 0), Ln(<<"-", " ", "e">>, "text", 0), Ln(<<"k", ":", " ", "v">>, "text", 0),
-           Ln(<<" ", "m">>, "more", 0), Ln(<<"\t", "t">>, "more", 0), Ln(<<>>, "empty", 0), Ln(<<>>, "empty", 1) }
+           Ln(<<" ", "m">>, "more", 0), Ln(<<"\t", "t">>, "more", 0), Ln(<<>>, "empty", 0), Ln(<<>>, "empty", 1),
+           Ln(<<".", ".", ".">>, "text", 0), Ln(<<"-", "-", "-", " ", "x">>, "text", 0) }      \* look like document markers: content when indented
+LooksLikeMarker(l) == l.txt # <<>> /\ Len(l.txt) >= 3 /\ l.txt[1] = l.txt[2] /\ l.txt[2] = l.txt[3] /\ l.txt[1] \in {".", "-"}
 VARIABLES ls, phase, par
 vars == <<ls, phase, par>>
 NoPar == [name |-> "", literal |-> TRUE, chomp |-> "", extra |-> 0, explicit |-> FALSE, order |-> 0, comment |-> FALSE, ending |-> ""]
@@ -19,6 +21,7 @@ Choose == /\ phase = "grow"
                /\ (ex = 13 => (name = "mapvalue" /\ ~v[1]))                                \* the deep indentation family (>= buffer size - 2)
                /\ (name \in {"top", "topdoc"} => (~v[1] /\ en # "follow"))                 \* no indicator at top level (see DESIGN); nothing can follow
                /\ ((NeedsIndicator(ls) = TRUE) => v[1])
+               /\ (((\E i \in 1..Len(ls) : LooksLikeMarker(ls[i])) = TRUE) => BCtx(name).n + 1 + ex >= 1)   \* at column 0 such a line is a real marker
                /\ (v[1] => BCtx(name).n + 1 + ex - (IF BCtx(name).n < 0 THEN 0 ELSE BCtx(name).n) <= 9)
                /\ (en = "none" => (ls # <<>> /\ ~IsEmpty(ls[Len(ls)])))                      \* an unterminated last line must be a content line
                /\ par' = [name |-> name, literal |-> lit, chomp |-> ch, extra |-> ex, explicit |-> v[1], order |-> v[2], comment |-> v[3], ending |-> en]
